@@ -2,13 +2,12 @@
 (* Role A for the F-Rules family: for every (source, target, settings) of the bounded universe the
    operational model (rule chain -> IR -> Eval) is checked against the declarative layer.          *)
 EXTENDS RulesUniverse
-CONSTANTS Leaves, Depth, Width
+CONSTANTS Leaves, Depth, Width, Mode
 
 VARIABLES s, t, cfg, phase, ir
 vars == <<s, t, cfg, phase, ir>>
-Univ == GrowN(Leaves, Depth)
-
-Init == /\ s \in Univ /\ t \in Univ /\ cfg \in Cfgs
+Init == /\ \E p \in PairsOf(Mode, Leaves, Depth) : s = p[1] /\ t = p[2]
+        /\ cfg \in Cfgs
         /\ phase = "start" /\ ir = Fail
 Generate == /\ phase = "start"
             /\ ir' = PlanTop(cfg, s, t)
@@ -22,10 +21,12 @@ Done == phase = "done"
 A_C03 == Done => (~IsFail(ir) <=> Conv(cfg, s, t))
 \* C02 / C11 at design level; the only disagreement allowed is the known model-level defect
 \* (array -> slice loop emitted without make(): the loop indexes a nil slice)
-BadVal(v) == LET r == Eval(ir, v) IN IsPanic(r) \/ Strip(r) # SMap(cfg, s, t, v)
-A_C02 == (Done /\ ~IsFail(ir)) => \A v \in Vals(s, Width) : BadVal(v) => (HasFixedNoMake(ir) /\ IsPanic(Eval(ir, v)))
+BadVal(v) == LET r == EvalTop(ir, v) IN IsPanic(r) \/ Strip(r) # SMap(cfg, s, t, v)
+A_C02 == (Done /\ ~IsFail(ir)) => \A v \in Vals(s, Width) : BadVal(v) => HasFixedNoMake(ir)
 \* without the defect pattern the model agrees everywhere
 A_C02strict == (Done /\ ~IsFail(ir) /\ ~HasFixedNoMake(ir)) => \A v \in Vals(s, Width) : ~BadVal(v)
 \* C04 at design level: result cells are fresh unless the position is shared under skipCopySameType
-A_C04 == (Done /\ ~IsFail(ir)) => \A v \in Vals(s, Width) : LET r == Eval(ir, v) IN IsPanic(r) \/ ShareOK(cfg, s, t, r)
+\* (known model-level deviation: the address of an uncopied source position, `&source[i]`, under skipCopySameType)
+A_C04 == (Done /\ ~IsFail(ir)) => \A v \in Vals(s, Width) : LET r == EvalTop(ir, v) IN IsPanic(r) \/ ShareOK(cfg, s, t, r) \/ HasValptrShare(ir)
+A_C04strict == (Done /\ ~IsFail(ir) /\ ~HasValptrShare(ir)) => \A v \in Vals(s, Width) : LET r == EvalTop(ir, v) IN IsPanic(r) \/ ShareOK(cfg, s, t, r)
 =============================================================================
